@@ -396,4 +396,6 @@ def r7(ctx, RULE="C05.R7"):
                   line=d.lineno)
 
 
+EXPLANATION = EXPLANATION + ' (R7) receiver side: a reassembly context is opened only for a fragment id that has none, the expiry runs only after the arriving fragment was stored, and a context is discarded only after its message was delivered - the last obligation is violated on the pinned tree (known finding, DESIGN 8.4).'
+
 RULES = [("C05.R6", r6), ("C05.R1", r1), ("C05.R2", r2), ("C05.R3", r3), ("C05.R4", r4), ("C05.R5", r5), ("C05.R7", r7)]
